@@ -14,7 +14,8 @@ def _h(case, salt=0):
     return zlib.crc32(json.dumps(case, sort_keys=True, default=str).encode()) + salt
 
 
-HI_OPS = ("readback", "getitem", "setitem", "ufunc", "reduce", "scan", "concat", "pad", "where", "subset", "ragged_slice", "col")
+HI_OPS = ("readback", "getitem", "setitem", "ufunc", "reduce", "scan", "concat", "pad", "where", "subset", "ragged_slice", "col",
+          "rl_roundtrip", "rl_getitem", "rl_ufunc", "rl_reduce", "rl_concat", "rl2_getitem", "rl2_func", "rl2_ufunc", "rl2_concat")
 
 
 def variants(prop, case):
